@@ -14,4 +14,4 @@ package vm
 // pushes its result when it succeeds (C04.vm.callobject). Not decided: the arms whose effect depends on an operand
 // (they pop in a loop): BuildList, BuildMap, BuildSet, BuildString, Call, Partial, LoadClosure, FromImport, Unpack are
 // listed as "loop".
-//@ scan[C04.vm.arm.effects] C04 armeffects (*VirtualMachine).eval: BinaryOp=-1 BinarySubscr=-1 CompareOp=-1 ContainsOp=-1 Copy=1 Defer=-1 Go=-1 False=1 True=1 Nil=1 ForIter=-1j/0/1/2 GetIter=0 Halt= Import=0 JumpBackward=0j JumpForward=0j Length=0 LoadAttr=0 LoadConst=1 LoadFast=1 LoadFree=1 LoadGlobal=1 MakeCell=1 PopJumpForwardIfFalse=-1/-1j PopJumpForwardIfTrue=-1/-1j PopTop=-1 Range=0 Receive=0 ReturnValue=0 Send=-2 Slice=-2 StoreAttr=-2 StoreFast=-1 StoreFree=-1 StoreGlobal=-1 StoreSubscr=-3 Swap=0 UnaryNegative=0 UnaryNot=0 BuildList=loop BuildMap=loop BuildSet=loop BuildString=loop Call=loop Partial=loop LoadClosure=loop FromImport=loop Unpack=loop
+//@ scan[C04.vm.arm.effects] C04 armeffects (*VirtualMachine).eval: Nop=0 BinaryOp=-1 BinarySubscr=-1 CompareOp=-1 ContainsOp=-1 Copy=1 Defer=-1 Go=-1 False=1 True=1 Nil=1 ForIter=-1j/0/1/2 GetIter=0 Halt= Import=0 JumpBackward=0j JumpForward=0j Length=0 LoadAttr=0 LoadConst=1 LoadFast=1 LoadFree=1 LoadGlobal=1 MakeCell=1 PopJumpForwardIfFalse=-1/-1j PopJumpForwardIfTrue=-1/-1j PopTop=-1 Range=0 Receive=0 ReturnValue=0 Send=-2 Slice=-2 StoreAttr=-2 StoreFast=-1 StoreFree=-1 StoreGlobal=-1 StoreSubscr=-3 Swap=0 UnaryNegative=0 UnaryNot=0 BuildList=loop BuildMap=loop BuildSet=loop BuildString=loop Call=loop Partial=loop LoadClosure=loop FromImport=loop Unpack=loop
